@@ -886,6 +886,11 @@ func (s *scribbler) rollback() {
 // the options followed by the ones of the source header.
 func effectiveStamps(c Case) []Stamp {
 	out := append([]Stamp(nil), c.Opts.Stamps...)
+	if len(c.Opts.Stamps) > 0 && (c.Pass == "data" || c.Pass == "flags") {
+		// stamps in a raw options object replace the list (documented: the raw
+		// object overrides the other options)
+		return out
+	}
 	if c.Entry != "cli-doc" {
 		for _, p := range c.HeadStamps {
 			out = append(out, Stamp{Prv: p, Val: "C16/" + p})
@@ -1279,12 +1284,6 @@ func judge(c Case, o *vh.Obs) {
 		return
 	}
 	if c.Pass == "flags" && c.Entry != "cli" && c.Entry != "exec" {
-		o.Discard()
-		return
-	}
-	if len(c.Opts.Stamps) > 0 && len(c.HeadStamps) > 0 && c.Pass == "data" || c.Pass == "flags" && len(c.Opts.Stamps) > 0 && len(c.HeadStamps) > 0 {
-		// stamps in a raw options object replace the header's (documented:
-		// the raw object overrides the other options); kept out of the sweep
 		o.Discard()
 		return
 	}
@@ -1872,6 +1871,15 @@ func vectors(di *docInfo) []vector {
 		v = base(t)
 		v.headStamps = append(append([]string{}, req...), otherStamp)
 		v.sign = true
+		out = append(out, v)
+		// the same providers handed over in the options with OTHER values while the
+		// header carries its own: the source header must keep its values
+		v = base(t)
+		v.headStamps = append(append([]string{}, req...), otherStamp)
+		v.sign = true
+		for _, p := range v.headStamps {
+			v.opts.Stamps = append(v.opts.Stamps, Stamp{Prv: p, Val: "OPT/" + p})
+		}
 		out = append(out, v)
 		v = base(t)
 		v.sign = true
